@@ -652,7 +652,8 @@ def run(ctx):
     comp_bad, comp_stats = [], {}
     if cases:
         comp_bad, comp_stats, outs = component_tie(ctx, h, drv, cases)
-        ctx.add_samples([dict(case=cases[i][0][:120], impl=outs[0][i][:160], model=outs[1][i][:160])
+        ctx.add_samples([dict(case=cases[i][0][:120], impl=(outs[0][i] if i < len(outs[0]) else "<missing>")[:160],
+                              model=(outs[1][i] if i < len(outs[1]) else "<missing>")[:160])
                          for i in (0, len(cases) // 2)])
     ctx.log("component tie: %d cases, %d disagreements, %s" % (len(cases), len(comp_bad), comp_stats))
 
